@@ -919,6 +919,14 @@ def simulate(plan, enumerate_all=None):
                 _probe_ok(probe, stats, cmd, chosen, ci, history)
             elif o.kind == "raised" and not o.fired:
                 _bump(probe, "raised_without_fault")
+                # a command that fails by itself (no fault injected: black rejecting the rendering, an unsupported
+                # pair, ...) must not have touched the output: "nothing else in the output file changes"
+                if after_text != before_text:
+                    viols.append({"clause": "D4", "detail": "the command raised %s by itself but the output file changed: "
+                                                            "%d -> %d characters" % (o.exc_type, len(before_text or ""),
+                                                                                     len(after_text or "")),
+                                  "sig": {"what": "output_changed_by_failed_command", "exc": o.exc_type,
+                                          "emptied": not after_text}})
                 for c in sorted(set(_cell(i, t) for i, t in chosen)):
                     _bump(stats["extra"]["cells"], "%s:raised:%s" % (c, o.exc_type))
             if recover:
